@@ -329,7 +329,29 @@ func replayConnCase(kr *keyring, c *connCase, parked, byref bool) (diff string) 
 				rec = serverHello(sym == "HRR")
 			}
 			before := len(tr.written())
-			n, err := conn.Write(rec)
+			var n int
+			var err error
+			if byref && len(rec) > 6 {
+				// the relay's way (io.Copy with one buffer): the record arrives in two pieces, written from the same reused buffer
+				relay := make([]byte, len(rec))
+				h := 3 + len(rec)/3
+				copy(relay, rec[:h])
+				n, err = conn.Write(relay[:h])
+				if err == nil {
+					for k := range relay {
+						relay[k] = 0xA5
+					}
+					copy(relay, rec[h:])
+					var n2 int
+					n2, err = conn.Write(relay[:len(rec)-h])
+					n += n2
+					for k := range relay {
+						relay[k] = 0x5A
+					}
+				}
+			} else {
+				n, err = conn.Write(rec)
+			}
 			got := tr.written()[before:]
 			if sym == "ZERO" && err != nil && len(got) == 0 {
 				return "" // refusing a zero-length handshake record from the backend is admissible
